@@ -80,25 +80,52 @@ func realSpec(sc scen, sid string) (*sess.Spec, error) {
 		}
 		pr := c.([2]interface{})
 		sp = sess.DoernerSign(pr[0].(*doerner.ConfigReceiver), pr[1].(*doerner.ConfigSender), "a", "b", msg)
-	case "cmp-sign":
-		c, ok := keyCache["cmp"]
-		if !ok {
-			o := sess.Run(sess.CMPKeygen(pids, sc.N-1), 1, "keys")
-			m := map[party.ID]*cmp.Config{}
-			for _, id := range pids {
-				cfg, ok := o.Results[id].(*cmp.Config)
-				if !ok {
-					return nil, fmt.Errorf("cmp keygen failed: %v %s", o.Errors, o.Panic)
-				}
-				m[id] = cfg
-			}
-			c = m
-			keyCache["cmp"] = c
+	case "frost-refresh":
+		keys, err := frostKeys(sc.N)
+		if err != nil {
+			return nil, err
 		}
-		sp = sess.CMPSign(c.(map[party.ID]*cmp.Config), pids, msg)
+		sp = sess.FrostRefresh(keys, pids) // the search replays the session many times on these objects: a refresh that wrote into them would show as a changed outcome
+
+	case "cmp-keygen":
+		sp = sess.CMPKeygen(pids, sc.N-1)
+	case "cmp-presign", "cmp-refresh":
+		c, err := cmpKeys(sc, pids)
+		if err != nil {
+			return nil, err
+		}
+		if sc.Proto == "cmp-presign" {
+			sp = sess.CMPPresign(c, pids)
+		} else {
+			sp = sess.CMPRefresh(c, pids)
+		}
+	case "cmp-sign":
+		c, err := cmpKeys(sc, pids)
+		if err != nil {
+			return nil, err
+		}
+		sp = sess.CMPSign(c, pids, msg)
 	default:
 		return nil, fmt.Errorf("unknown protocol %s", sc.Proto)
 	}
 	sp.SessionID = []byte(sid)
 	return sp, nil
+}
+
+func cmpKeys(sc scen, pids []party.ID) (map[party.ID]*cmp.Config, error) {
+	k := fmt.Sprintf("cmp%d", sc.N)
+	if c, ok := keyCache[k]; ok {
+		return c.(map[party.ID]*cmp.Config), nil
+	}
+	o := sess.Run(sess.CMPKeygen(pids, sc.N-1), 1, "keys")
+	m := map[party.ID]*cmp.Config{}
+	for _, id := range pids {
+		cfg, ok := o.Results[id].(*cmp.Config)
+		if !ok {
+			return nil, fmt.Errorf("cmp keygen failed: %v %s", o.Errors, o.Panic)
+		}
+		m[id] = cfg
+	}
+	keyCache[k] = m
+	return m, nil
 }
